@@ -159,7 +159,7 @@ func (s *verifScn) record(name string) {
 
 // inject writes a symbolic consistent pre-state with arbitrary (parity-consistent) ticks.
 func (s *verifScn) inject(symTicks bool) {
-	s.pre = verifSublist(s.names)
+	s.pre = verifPre(s.names)
 	vAssume(verifConsistent(s.schema, s.pre))
 	vAssume(verifReachable(s.raw, s.pre))
 	verifInject(s.m, s.pre, func(i int) uint64 {
@@ -182,7 +182,7 @@ func (s *verifScn) mutateKind(k int) (kind int, called S, res Result) {
 	if kind < 0 {
 		kind = vInt(0, 2)
 	}
-	called = verifSublist(s.names)
+	called = verifCalled(s.names)
 	vAssume(len(called) > 0)
 	switch kind {
 	case 0:
